@@ -90,6 +90,10 @@ type TB struct {
 	InlineMaxBlocks int
 	MaxDepth        int
 	NoInline        func(*ssa.Function) bool
+	// ParamCallers, when set, returns the candidate call sites of a function; a parameter that is not
+	// bound by inlining is replaced by the argument term when exactly one candidate site exists
+	// (helpers extracted from a single caller read like the inlined code).
+	ParamCallers func(*ssa.Function) []ssa.CallInstruction
 
 	stack    map[*ssa.Function]bool
 	visiting map[ssa.Value]bool
@@ -122,6 +126,15 @@ func (tb *TB) Of(v ssa.Value, env *Env) *Term {
 	case *ssa.Parameter:
 		if env != nil {
 			if t, ok := env.params[x]; ok {
+				return t
+			}
+		}
+		if tb.ParamCallers != nil && !tb.visiting[x] {
+			if arg := ParamArg(x, tb.ParamCallers); arg != nil {
+				tb.visiting[x] = true
+				t := tb.Of(arg, nil)
+				delete(tb.visiting, x)
+				// keep receiver normalisation: a receiver passed on as receiver stays "recv:T"
 				return t
 			}
 		}
@@ -543,4 +556,52 @@ func VarArgs(v ssa.Value) []ssa.Value {
 		}
 	}
 	return out
+}
+
+// ParamArg returns the argument bound to parameter p at its unique candidate call site, or nil.
+func ParamArg(p *ssa.Parameter, callers func(*ssa.Function) []ssa.CallInstruction) ssa.Value {
+	fn := p.Parent()
+	if fn == nil || callers == nil {
+		return nil
+	}
+	idx := -1
+	for i, q := range fn.Params {
+		if q == p {
+			idx = i
+		}
+	}
+	sites := callers(fn)
+	if idx < 0 || len(sites) != 1 {
+		return nil
+	}
+	cc := sites[0].Common()
+	ai := idx
+	if cc.IsInvoke() {
+		if idx == 0 {
+			return cc.Value
+		}
+		ai = idx - 1
+	}
+	// closures called with bindings: parameters follow the free variables, Args holds only parameters
+	if ai < 0 || ai >= len(cc.Args) {
+		return nil
+	}
+	return cc.Args[ai]
+}
+
+// RootP is Root that additionally resolves parameters through unique call sites.
+func RootP(v ssa.Value, callers func(*ssa.Function) []ssa.CallInstruction) ssa.Value {
+	for i := 0; i < 8; i++ {
+		v = Root(v)
+		p, ok := v.(*ssa.Parameter)
+		if !ok {
+			return v
+		}
+		arg := ParamArg(p, callers)
+		if arg == nil {
+			return v
+		}
+		v = arg
+	}
+	return v
 }
